@@ -31,6 +31,33 @@ def unhex(s):
     return int(s, 16)
 
 
+held = {}            # value -> member object returned by an earlier conversion on the current class
+foreign = {}         # (kind, value) -> member of another enumeration carrying that value
+
+
+def arg(tok):
+    """an integer argument as the kind of Python object its tag asks for; int(result) is always the integer"""
+    if ':' not in tok:
+        return unhex(tok)
+    kind, h = tok.split(':')
+    v = unhex(h)
+    if kind == 'h':                      # the member object an earlier conversion returned (else the plain int)
+        return held.get(v, v)
+    if kind in ('f', 'g'):               # a member of another enumeration: own name per value / one shared name
+        if (kind, v) not in foreign:
+            name = ('V%d' % v).replace('-', 'M') if kind == 'f' else 'SAME'
+            ns = {'IntEnum': IntEnum, '__name__': __name__}
+            exec('class Foreign(IntEnum):\n    %s = %d\n' % (name, v), ns)
+            foreign[(kind, v)] = getattr(ns['Foreign'], name)
+        return foreign[(kind, v)]
+    if kind == 'b':
+        return bool(v) if v in (0, 1) else v
+    if kind == 'u':
+        import numpy as np
+        return np.uint16(v) if 0 <= v < 2 ** 16 else np.int64(v) if -2 ** 63 <= v < 2 ** 63 else v
+    raise ValueError('bad argument tag ' + tok)
+
+
 def nm(s):
     return '' if s == '~' else s
 
@@ -47,7 +74,8 @@ def members_of(tok):
 
 def show_members(ms):
     ms = list(ms)
-    return ','.join('%s:%s' % (show_name(m.name), hx(m)) for m in ms) if ms else '-'
+    one = lambda m: ('%s:%s' % (show_name(m.name), hx(m))) if hasattr(m, 'name') else '?%s' % type(m).__name__
+    return ','.join(one(m) for m in ms) if ms else '-'
 
 
 def check_member(cls, r):
@@ -82,7 +110,31 @@ def attempt(cls, f):
         r = f()
     except Exception as e:
         return 'X %s | SR' % type(e).__name__
+    try:
+        held[int(r)] = r
+    except Exception:
+        pass
     return member_out(cls, r)
+
+
+def iterate_during(cls, opener, toks):
+    """an iteration left open while values are converted leniently (first encounters grow the class)"""
+    try:
+        it = opener(cls)
+        out = []
+        first = next(it, None)
+        if first is not None:
+            out.append(first)
+        for t in toks:
+            try:
+                r = cls(arg(t), raise_on_unrecognized=False)
+                held[int(r)] = r
+            except Exception:
+                pass
+        out += list(it)
+    except Exception as e:
+        return 'X %s | SR' % type(e).__name__
+    return listing(out)
 
 
 def listing(ms):
@@ -99,8 +151,8 @@ def adapter(cls, v, strict):
         con, raw = construct.Int64sl, v.to_bytes(8, 'little', signed=True)
     else:
         return attempt(cls, lambda: cls(v, raise_on_unrecognized=strict))
-    ad = AutoEnum(con, cls, raise_on_unrecognized=strict)
     try:
+        ad = AutoEnum(con, cls, raise_on_unrecognized=strict)      # construct reads the members by iterating the class
         r = ad.parse(raw)
     except Exception as e:
         return 'X %s | SR' % type(e).__name__
@@ -148,6 +200,24 @@ class _E:
         return self.v
 
 
+def aliasing(again, got, to_string):
+    """results are the caller's: two calls must not hand out the same list object, and editing a returned list in
+    place must not change what a later call (or to_string) answers"""
+    want = list(got)
+    text = to_string() if to_string else None
+    second = again()
+    bad = ''
+    if second is got:
+        bad = ' BAD:aliasing-same-list-object-returned-twice'
+    got.reverse()
+    got.append(None)
+    del got[:1]
+    third = again()
+    if list(third) != want or (to_string and to_string() != text):
+        bad = ' BAD:aliasing-editing-a-result-changes-later-answers'
+    return bad
+
+
 def item_of(cls, tok):
     kind, rest = tok[0], tok[1:]
     if kind == 'n':
@@ -183,6 +253,7 @@ def do(line):
             cur = None
             return 'none'
         cur, mask = obj, None
+        held.clear()
         ok = not any(k.startswith(type(obj).UNRECOGNIZED_PREFIX) for k in obj.__members__)
         return 'ok %d %d' % (len(obj.__members__), ok)
     if c == 'T':
@@ -192,12 +263,18 @@ def do(line):
         ns = {'IntEnum': IntEnum, '__name__': __name__}
         exec('class Syn%d(IntEnum):\n%s' % (syn_count, body), ns)
         cur, mask = ns['Syn%d' % syn_count], None
+        held.clear()
         ok = not any(k.startswith(type(cur).UNRECOGNIZED_PREFIX) for k in cur.__members__)
         return 'ok %d %d' % (len(cur.__members__), ok)
     cls = cur
     if c == 'C':
-        v, strict = unhex(w[1]), w[2] == '1'
+        v, strict = arg(w[1]), w[2] == '1'
+        if strict and len(w) > 3 and w[3] == 'd':          # strict by default: no keyword at all
+            return attempt(cls, lambda: cls(v))
         return attempt(cls, lambda: cls(v, raise_on_unrecognized=strict))
+    if c in ('IT', 'RIT'):
+        toks = w[1].split(',') if w[1] not in ('-', '') else []
+        return iterate_during(cls, iter if c == 'IT' else reversed, toks)
     if c == 'P':                  # the same conversion with a numpy integer (what the file index passes)
         import numpy as np
         v, strict = unhex(w[1]), w[2] == '1'
@@ -211,16 +288,19 @@ def do(line):
     if c == 'G':
         return attempt(cls, lambda: cls[nm(w[1])])
     if c == 'I':
-        return attempt(cls, lambda: cls[unhex(w[1])])
+        return attempt(cls, lambda: cls[arg(w[1])])
     if c == 'F':
         return attempt(cls, lambda: cls.from_string(nm(w[1]), case_insensitive=True))
-    if c == 'L':
-        return listing(list(cls))
-    if c == 'K':
-        n = len(cls)
-        return 'K %d | SK %d' % (n, n)
-    if c == 'R':
-        return listing(list(reversed(cls)))
+    if c in ('L', 'K', 'R'):
+        try:                                   # an exception raised by the class is an outcome, not a harness failure
+            if c == 'L':
+                return listing(list(cls))
+            if c == 'R':
+                return listing(list(reversed(cls)))
+            n = len(cls)
+            return 'K %d | SK %d' % (n, n)
+        except Exception as e:
+            return 'X %s | SR' % type(e).__name__
     if c == 'ST':
         try:
             return 'L ' + show_members(_E(k, v) for k, v in cls._member_map_.items())
@@ -253,10 +333,16 @@ def do(line):
     if c in ('B', 'V', 'RT') and mask is None:
         return 'nomask'
     if c == 'B':
+        items = items_of(cls, w[1])
+        before = list(items)
         try:
-            return 'Z ' + hx(mask.to_bitmask(items_of(cls, w[1])))
+            z = mask.to_bitmask(items)
         except Exception as e:
             return 'X ' + type(e).__name__
+        out = 'Z ' + hx(z)
+        if len(items) != len(before) or any(a is not b for a, b in zip(items, before)):
+            out += ' BAD:input-list-modified'
+        return out
     if c == 'V':
         try:
             vals = mask.to_values(unhex(w[1]))
@@ -264,8 +350,11 @@ def do(line):
         except Exception as e:
             return 'X ' + type(e).__name__
         out = 'L ' + show_members(vals)
-        if s != ', '.join(str(v) for v in vals) or not all(isinstance(v, cls) for v in vals):
+        if not all(isinstance(v, cls) for v in vals):
+            out += ' BAD:not-members-of-the-enum'
+        elif s != ', '.join(str(v) for v in vals):
             out += ' BAD:to_string'
+        out += aliasing(lambda: mask.to_values(unhex(w[1])), vals, lambda: mask.to_string(unhex(w[1])))
         return out
     if c == 'RT':
         try:
@@ -275,6 +364,8 @@ def do(line):
         out = 'L ' + show_members(vals)
         if not all(isinstance(v, cls) for v in vals):
             out += ' BAD:class'
+        items = items_of(cls, w[1])
+        out += aliasing(lambda: mask.to_values(mask.to_bitmask(items)), vals, None)
         return out
     return '?'
 
